@@ -246,7 +246,6 @@ Section Spec.
     | SPay ws acc =>
         let L := sp_len ws in
         let k := N.of_nat (length acc) in
-        let bs := flat_map drx_bytes4 (map fst (acc ++ [w])) in
         if sp_more L k then
           let nb := N.min (L - 4 * k) 4 in                        (* payload bytes in this word *)
           let beat := if nb =? 0 then []
@@ -255,6 +254,7 @@ Section Spec.
             (SPay ws (acc ++ [w]), beat)
           else (SIdle, beat ++ [Report (sp_hdr ws) false])
         else
+          let bs := flat_map drx_bytes4 (map fst (acc ++ [w])) in      (* all bytes of the words after DPPSTART *)
           (SIdle, [Report (sp_hdr ws)
                      (c32 (firstn (N.to_nat L) bs) =? drx_le (firstn 4 (skipn (N.to_nat L) bs)))])
     end.
@@ -336,7 +336,7 @@ Fixpoint drx_hist_dec (fuel : nat) (m : N) (acc : list (N * N)) : list (N * N) :
   match fuel with
   | O => acc
   | S f => if m <=? 1 then acc
-           else drx_hist_dec f (m / W37) ((bits (m mod W37) 0 32, bits (m mod W37) 32 4) :: acc)
+           else drx_hist_dec f (N.shiftr m 37) ((bits m 0 32, bits m 32 4) :: acc)
   end.
 Definition drx_hist (m : N) : list (N * N) := drx_hist_dec (N.to_nat (N.size m)) m [].
 
@@ -361,7 +361,7 @@ Definition drx_spec_mon (h16 c32 : list N -> N) (lw : N) (hd : bool) (m i o : N)
     let w := (bits i 0 32, bits i 32 4) in
     let e := snd (sp_step h16 c32 lw (sp_state_after h16 c32 lw SIdle (drx_hist m)) w) in
     let e' := if hd then e else map drx_ev_nohdr e in
-    Some (m * W37 + bits i 0 37, drx_evs_eqb got e')
+    Some (N.shiftl m 37 + bits i 0 37, drx_evs_eqb got e')
   else Some (m, drx_evs_eqb got []).
 
 (* state-dependent input alphabets for the lock-step obligations: one word list per FSM state of the model *)
